@@ -319,7 +319,10 @@ impl Metrics {
 
     #[inline(always)]
     pub(crate) fn mark_gc_untraced(&self, count: usize) {
-        self.0.traced_gcs.update(|c| c - count);
+        // An object can be black without ever having been counted as traced (a value that does not
+        // need tracing goes straight from white to black), and a write barrier may still re-queue
+        // it, so there may be no trace credit to take back.
+        self.0.traced_gcs.update(|c| c.saturating_sub(count));
     }
 
     #[inline(always)]
